@@ -4,11 +4,16 @@
 //! (packed word in, packed word out) and as per-block digests over every date of a block of years.
 //! Direct oracles (`c.fail`): every evaluated case, single or inside a digest, is also judged against
 //! an independent reference calendar (c01::{is_leap, month_len, day_num}) that shares no code with
-//! chrono; the date-time / zone-aware delegations and the time-of-day replacements have oracles only.
+//! chrono.  The date-time forms (NaiveTime::with_*, the NaiveDateTime and DateTime<Utc>/<FixedOffset>
+//! forms of month stepping and of all eleven field replacements, DateTime::years_since) are compared
+//! with the Lean model too (ops `dto.*`, lean/Chrono/Drv/DateTimeOps.lean) and keep their direct oracles
+//! (NaiveDateTime: the date/time-level result with the other part kept; zone-aware: the naive result on
+//! the wall clock at the same offset, nothing only outside MIN_UTC..=MAX_UTC).
 use super::c01::{day_num, gen_date, is_leap, month_len, yof, MAX_YEAR, MIN_YEAR};
 use crate::ctx::*;
 use chrono::{
-    DateTime, Datelike, FixedOffset, Month, Months, NaiveDate, NaiveDateTime, NaiveTime, TimeZone, Timelike, Utc, Weekday,
+    DateTime, Datelike, FixedOffset, Month, Months, NaiveDate, NaiveDateTime, NaiveTime, Offset, TimeDelta, TimeZone,
+    Timelike, Utc, Weekday,
 };
 
 const WD: [Weekday; 7] =
@@ -57,6 +62,41 @@ fn in_range(y: i64) -> bool {
 fn desc(d: &NaiveDate) -> String {
     format!("{}-{}-{} (yof {})", d.year(), d.month(), d.day(), yof(d))
 }
+
+// ---- encodings of the `dto.*` correspondence: time `secs frac`, naive `yof secs frac`, zoned `yof secs frac off`
+fn enc_t(t: &NaiveTime) -> String {
+    format!("{} {}", t.num_seconds_from_midnight(), t.nanosecond())
+}
+fn enc_n(n: &NaiveDateTime) -> String {
+    format!("{} {}", yof(&n.date()), enc_t(&n.time()))
+}
+fn enc_z<Tz: TimeZone>(z: &DateTime<Tz>) -> String {
+    format!("{} {}", enc_n(&z.naive_utc()), z.offset().fix().local_minus_utc())
+}
+fn show_ot(r: &Result<Option<NaiveTime>, ()>) -> String {
+    match r {
+        Ok(Some(t)) => enc_t(t),
+        Ok(None) => "none".into(),
+        Err(()) => "panic".into(),
+    }
+}
+fn show_on(r: &Result<Option<NaiveDateTime>, ()>) -> String {
+    match r {
+        Ok(Some(n)) => enc_n(n),
+        Ok(None) => "none".into(),
+        Err(()) => "panic".into(),
+    }
+}
+fn show_oz<Tz: TimeZone>(r: &Result<Option<DateTime<Tz>>, ()>) -> String {
+    match r {
+        Ok(Some(z)) => enc_z(z),
+        Ok(None) => "none".into(),
+        Err(()) => "panic".into(),
+    }
+}
+const DIR: [&str; 2] = ["add", "sub"];
+const DFIELD: [&str; 6] = ["month", "month0", "day", "day0", "ordinal", "ordinal0"];
+const TFIELD: [&str; 4] = ["hour", "minute", "second", "nano"];
 
 /// the property's reading of "add `n` months" (n signed), independent of chrono
 fn ref_months(d: &NaiveDate, n: i128) -> Option<(i64, i64, i64)> {
@@ -108,6 +148,7 @@ fn months_single(c: &mut Ctx, d: &NaiveDate, n: u32) {
     let ndt = d.and_time(t);
     for (sub, r) in [(false, &a), (true, &s)] {
         let got = guard(|| if sub { ndt.checked_sub_months(Months::new(n)) } else { ndt.checked_add_months(Months::new(n)) });
+        c.op(&format!("dto.nm {} {} {n}", DIR[sub as usize], enc_n(&ndt)), &show_on(&got));
         let want = r.clone().map(|o| o.map(|x| x.and_time(t)));
         if got != want {
             c.fail("NaiveDateTime month stepping differs from stepping the date and keeping the time", &format!("{ndt:?} n={n} sub={sub}"));
@@ -115,11 +156,13 @@ fn months_single(c: &mut Ctx, d: &NaiveDate, n: u32) {
         let off = gen_offset(c);
         if let Some(dt) = off.from_local_datetime(&ndt).single() {
             let got = guard(|| if sub { dt.checked_sub_months(Months::new(n)) } else { dt.checked_add_months(Months::new(n)) });
+            c.op(&format!("dto.zm {} {} {n}", DIR[sub as usize], enc_z(&dt)), &show_oz(&got));
             zoned_oracle(c, "month stepping", &format!("{dt:?} n={n} sub={sub}"), &dt, got, want.clone());
         }
         if in_utc(&ndt) {
             let dt = ndt.and_utc();
             let got = guard(|| if sub { dt.checked_sub_months(Months::new(n)) } else { dt.checked_add_months(Months::new(n)) });
+            c.op(&format!("dto.zm {} {} {n}", DIR[sub as usize], enc_z(&dt)), &show_oz(&got));
             match (got, &want) {
                 (Ok(g), Ok(w)) if g.map(|x| x.naive_utc()) == *w => c.count("deleg:utc-ok"),
                 _ => c.fail("DateTime<Utc> month stepping differs from the naive value", &format!("{dt:?} n={n} sub={sub}")),
@@ -497,9 +540,18 @@ fn years_single(c: &mut Ctx, a: &NaiveDate, b: &NaiveDate) {
         Err(()) => c.fail("years_since: panicked", &format!("{} since {}", desc(a), desc(b))),
     }
     // zone-aware form: the time of day takes part in the comparison
-    let (ta, tb) = (gen_time(c), gen_time(c));
+    let ta = gen_time(c);
+    // the same month and day are frequent here, so times next to each other reach the tie-break
+    let tb = if c.rng.chance(1, 2) { gen_time_near(c, &ta) } else { gen_time(c) };
     let (xa, xb) = (a.and_time(ta).and_utc(), b.and_time(tb).and_utc());
-    match guard(|| xa.years_since(xb)) {
+    let ru = guard(|| xa.years_since(xb));
+    c.op(&format!("dto.zys {} {}", enc_z(&xa), enc_z(&xb)), &match ru { Ok(o) => opt(o), Err(()) => "panic".into() });
+    // each value at its own fixed offset: the wall clocks are compared
+    if in_utc(&a.and_time(ta)) && in_utc(&b.and_time(tb)) {
+        let (oa, ob) = (gen_offset(c), if c.rng.chance(1, 2) { gen_offset(c) } else { FixedOffset::east_opt(0).unwrap() });
+        years_zoned(c, &oa.from_utc_datetime(&a.and_time(ta)), &ob.from_utc_datetime(&b.and_time(tb)));
+    }
+    match ru {
         Ok(Some(k)) => {
             let k = k as i64;
             if !((yb + k, mb, db, tb) <= (ya, ma, da, ta) && (ya, ma, da, ta) < (yb + k + 1, mb, db, tb)) {
@@ -537,6 +589,53 @@ fn gen_offset(c: &mut Ctx) -> FixedOffset {
     };
     FixedOffset::east_opt(s).unwrap()
 }
+/// a time of day equal or next to `t` in the derived order (second, then nanosecond field)
+fn gen_time_near(c: &mut Ctx, t: &NaiveTime) -> NaiveTime {
+    let (s, f) = (t.num_seconds_from_midnight() as i64, t.nanosecond() as i64);
+    let (s2, f2) = match c.rng.below(5) {
+        0 => (s, f),
+        1 => (s, f + 1),
+        2 => (s, f - 1),
+        3 => (s + 1, f),
+        _ => (s - 1, f),
+    };
+    let s2 = s2.clamp(0, 86399) as u32;
+    let f2 = f2.clamp(0, 1_999_999_999) as u32;
+    NaiveTime::from_num_seconds_from_midnight_opt(s2, 0).unwrap().with_nanosecond(f2).unwrap()
+}
+/// a time of day with the leap-second representation on ANY second (reachable through with_nanosecond)
+fn gen_time_any(c: &mut Ctx) -> NaiveTime {
+    let t = gen_time(c);
+    if c.rng.chance(1, 3) {
+        let secs = match c.rng.below(3) {
+            0 => *c.rng.pick(&[0u32, 1, 58, 59, 60, 3599, 3600, 86398, 86399]),
+            _ => c.rng.below(86400) as u32,
+        };
+        let nano = match c.rng.below(3) {
+            0 => *c.rng.pick(&[1_000_000_000u32, 1_999_999_999, 1_500_000_000]),
+            _ => c.rng.range(1_000_000_000, 1_999_999_999) as u32,
+        };
+        NaiveTime::from_num_seconds_from_midnight_opt(secs, 0).unwrap().with_nanosecond(nano).unwrap()
+    } else {
+        t
+    }
+}
+/// a zone-aware value; one in three within two days of a range end, where the wall clock can fall in
+/// the day before MIN / after MAX
+fn gen_zoned(c: &mut Ctx) -> DateTime<FixedOffset> {
+    let off = gen_offset(c);
+    let (lo, hi) = (DateTime::<Utc>::MIN_UTC.naive_utc(), DateTime::<Utc>::MAX_UTC.naive_utc());
+    let u = match c.rng.below(6) {
+        0 => lo.checked_add_signed(TimeDelta::seconds(c.rng.below(2 * 86400) as i64)).unwrap(),
+        1 => hi.checked_sub_signed(TimeDelta::seconds(c.rng.below(2 * 86400) as i64)).unwrap(),
+        _ => {
+            let x = gen_date8(c).and_time(gen_time_any(c));
+            if in_utc(&x) { x } else { hi }
+        }
+    };
+    off.from_utc_datetime(&u)
+}
+
 /// dates concentrated on month ends, leap days and both range ends
 fn gen_date8(c: &mut Ctx) -> NaiveDate {
     loop {
@@ -614,7 +713,7 @@ fn gen_target_year(c: &mut Ctx, d: &NaiveDate) -> i32 {
 
 // ---- time-of-day replacement: direct oracles only (the model is C07's) ---------------------------------
 fn time_fields(c: &mut Ctx) {
-    let t = gen_time(c);
+    let t = gen_time_any(c);
     let (h, mi, s, n) = (t.hour(), t.minute(), t.second(), t.nanosecond());
     let field = c.rng.below(4) as usize;
     let bound: u32 = [24, 60, 60, 2_000_000_000][field];
@@ -633,6 +732,7 @@ fn time_fields(c: &mut Ctx) {
         _ => t.with_nanosecond(v),
     };
     let r = guard(|| apply(&t));
+    c.op(&format!("dto.tw {} {} {v}", TFIELD[field], enc_t(&t)), &show_ot(&r));
     let mut want = [h, mi, s, n];
     want[field] = v;
     match r {
@@ -659,6 +759,7 @@ fn time_fields(c: &mut Ctx) {
         2 => ndt.with_second(v),
         _ => ndt.with_nanosecond(v),
     });
+    c.op(&format!("dto.nw {} {} {v}", TFIELD[field], enc_n(&ndt)), &show_on(&rn));
     if rn != r.map(|o| o.map(|x| d.and_time(x))) {
         c.fail(&format!("NaiveDateTime::{name} differs from replacing the field of the time and keeping the date"), &format!("{ndt:?} v={v}"));
     }
@@ -672,6 +773,7 @@ fn time_fields(c: &mut Ctx) {
             2 => dt.with_second(v),
             _ => dt.with_nanosecond(v),
         });
+        c.op(&format!("dto.zw {} {} {v}", TFIELD[field], enc_z(&dt)), &show_oz(&ru));
         let want = rn.map(|o| o.filter(in_utc));
         if want != rn {
             c.count("time:utc:result-beyond-MAX_UTC");
@@ -689,6 +791,7 @@ fn time_fields(c: &mut Ctx) {
             2 => dt.with_second(v),
             _ => dt.with_nanosecond(v),
         });
+        c.op(&format!("dto.zw {} {} {v}", TFIELD[field], enc_z(&dt)), &show_oz(&rf));
         zoned_oracle(c, name, &format!("{dt:?} v={v}"), &dt, rf, rn);
     }
 }
@@ -705,6 +808,7 @@ fn with_delegations(c: &mut Ctx, d: &NaiveDate, field: usize, v: u32, r: &Result
         4 => ndt.with_ordinal(v),
         _ => ndt.with_ordinal0(v),
     });
+    c.op(&format!("dto.nw {} {} {v}", DFIELD[field], enc_n(&ndt)), &show_on(&got));
     let want = r.clone().map(|o| o.map(|x| x.and_time(t)));
     if got != want {
         c.fail("NaiveDateTime field replacement differs from replacing the field of the date and keeping the time", &format!("{ndt:?} field={} v={v}", FIELDS[field]));
@@ -719,7 +823,198 @@ fn with_delegations(c: &mut Ctx, d: &NaiveDate, field: usize, v: u32, r: &Result
             4 => dt.with_ordinal(v),
             _ => dt.with_ordinal0(v),
         });
+        c.op(&format!("dto.zw {} {} {v}", DFIELD[field], enc_z(&dt)), &show_oz(&got));
         zoned_oracle(c, "field replacement", &format!("{dt:?} field={} v={v}", FIELDS[field]), &dt, got, want);
+    }
+}
+
+/// `DateTime<FixedOffset>::years_since` with each value at its own offset: correspondence, and the
+/// whole-years oracle on the two wall clocks (when both are inside the range)
+fn years_zoned(c: &mut Ctx, xa: &DateTime<FixedOffset>, xb: &DateTime<FixedOffset>) {
+    let r = guard(|| xa.years_since(*xb));
+    c.op(&format!("dto.zys {} {}", enc_z(xa), enc_z(xb)), &match r { Ok(o) => opt(o), Err(()) => "panic".into() });
+    if let (Ok(la), Ok(lb)) = (guard(|| xa.naive_local()), guard(|| xb.naive_local())) {
+        let ka = (la.year() as i64, la.month(), la.day(), la.time());
+        let kb = (lb.year() as i64, lb.month(), lb.day(), lb.time());
+        match r {
+            Ok(Some(k)) => {
+                let k = k as i64;
+                if !((kb.0 + k, kb.1, kb.2, kb.3) <= ka && ka < (kb.0 + k + 1, kb.1, kb.2, kb.3)) {
+                    c.fail("DateTime<FixedOffset>::years_since: not the number of whole years elapsed between the wall clocks", &format!("{xa:?} since {xb:?} -> {k}"));
+                }
+                c.count("years:fixed:some");
+            }
+            Ok(None) => {
+                if !(ka < kb) {
+                    c.fail("DateTime<FixedOffset>::years_since: fails although base's wall clock is not after self's", &format!("{xa:?} since {xb:?}"));
+                }
+                c.count("years:fixed:none");
+            }
+            Err(()) => c.fail("DateTime<FixedOffset>::years_since: panicked", &format!("{xa:?} since {xb:?}")),
+        }
+    } else {
+        c.count("years:fixed:headroom-wall-clock");
+    }
+}
+
+/// one operation (`kind`: 0/1 add/sub months, 2 with_year, 3..=8 the six u32 date fields, 9..=12 the four
+/// time fields) on a zone-aware value: correspondence always, oracle against the naive operation on the
+/// wall clock when that is a NaiveDateTime (it is not when it falls in the day before MIN / after MAX)
+fn zoned_case(c: &mut Ctx, z: &DateTime<FixedOffset>, kind: usize, arg: i64) {
+    let local = guard(|| z.naive_local());
+    let v = arg as u32;
+    let (line, got, want): (String, Result<Option<DateTime<FixedOffset>>, ()>, Option<Result<Option<NaiveDateTime>, ()>>) = match kind {
+        0 | 1 => {
+            let sub = kind == 1;
+            let got = guard(|| if sub { z.checked_sub_months(Months::new(v)) } else { z.checked_add_months(Months::new(v)) });
+            let want = local.clone().ok().map(|l| guard(|| if sub { l.checked_sub_months(Months::new(v)) } else { l.checked_add_months(Months::new(v)) }));
+            (format!("dto.zm {} {} {v}", DIR[sub as usize], enc_z(z)), got, want)
+        }
+        2 => {
+            let y = arg as i32;
+            let got = guard(|| z.with_year(y));
+            let want = local.clone().ok().map(|l| guard(|| l.with_year(y)));
+            (format!("dto.zw year {} {y}", enc_z(z)), got, want)
+        }
+        3..=8 => {
+            let f = kind - 3;
+            let got = guard(|| match f {
+                0 => z.with_month(v),
+                1 => z.with_month0(v),
+                2 => z.with_day(v),
+                3 => z.with_day0(v),
+                4 => z.with_ordinal(v),
+                _ => z.with_ordinal0(v),
+            });
+            let want = local.clone().ok().map(|l| guard(|| match f {
+                0 => l.with_month(v),
+                1 => l.with_month0(v),
+                2 => l.with_day(v),
+                3 => l.with_day0(v),
+                4 => l.with_ordinal(v),
+                _ => l.with_ordinal0(v),
+            }));
+            (format!("dto.zw {} {} {v}", DFIELD[f], enc_z(z)), got, want)
+        }
+        _ => {
+            let f = (kind - 9).min(3);
+            let got = guard(|| match f {
+                0 => z.with_hour(v),
+                1 => z.with_minute(v),
+                2 => z.with_second(v),
+                _ => z.with_nanosecond(v),
+            });
+            let want = local.clone().ok().map(|l| guard(|| match f {
+                0 => l.with_hour(v),
+                1 => l.with_minute(v),
+                2 => l.with_second(v),
+                _ => l.with_nanosecond(v),
+            }));
+            (format!("dto.zw {} {} {v}", TFIELD[f], enc_z(z)), got, want)
+        }
+    };
+    c.op(&line, &show_oz(&got));
+    if let Ok(Some(g)) = &got {
+        if g.offset() != z.offset() {
+            c.fail("zone-aware operation changed the offset", &line);
+        }
+        // map_local-based operations never return a value outside MIN_UTC..=MAX_UTC
+        if kind >= 2 && !in_utc(&g.naive_utc()) {
+            c.fail("zone-aware field replacement returned a value outside MIN_UTC..=MAX_UTC", &line);
+        }
+    }
+    match want {
+        Some(w) => zoned_oracle(c, "operation at a range end / sub-minute offset", &line, z, got, w),
+        None => c.count("zoned:headroom-wall-clock"),
+    }
+}
+
+/// a random operation on a zone-aware value that may sit at a range end; `time()`; `years_since`
+fn zoned_ops(c: &mut Ctx) {
+    let z = gen_zoned(c);
+    let d = z.naive_utc().date();
+    let kind = c.rng.below(13) as usize;
+    let arg: i64 = match kind {
+        0 | 1 => (match c.rng.below(3) { 0 => gen_months(c, &d), 1 => c.rng.below(14) as u32, _ => 0 }) as i64,
+        2 => (match c.rng.below(3) { 0 => z.year(), _ => gen_target_year(c, &d) }) as i64,
+        3..=8 => (match c.rng.below(3) {
+            0 => gen_u32_field(c, &d),
+            1 => [z.month(), z.month0(), z.day(), z.day0(), z.ordinal(), z.ordinal0()][kind - 3],
+            _ => c.rng.below(33) as u32,
+        }) as i64,
+        _ => {
+            let bound: u32 = [24, 60, 60, 2_000_000_000][kind - 9];
+            (match c.rng.below(4) {
+                0 => bound - 1,
+                1 => bound,
+                2 => *c.rng.pick(&[0u32, 1, 23, 59, 999_999_999, 1_000_000_000, 1_999_999_999, u32::MAX]),
+                _ => c.rng.below(bound as u64 + 2) as u32,
+            }) as i64
+        }
+    };
+    zoned_case(c, &z, kind, arg);
+    // time(): the time of day of the wall clock
+    let tm = guard(|| z.time());
+    c.op(&format!("dto.zt {}", enc_z(&z)), &match &tm { Ok(t) => enc_t(t), Err(()) => "panic".into() });
+    if let (Ok(t), Ok(l)) = (&tm, guard(|| z.naive_local())) {
+        if *t != l.time() {
+            c.fail("DateTime::time is not the time of day of the wall clock", &format!("{z:?}"));
+        }
+    }
+    let other = gen_zoned(c);
+    years_zoned(c, &z, &other);
+}
+
+/// exhaustive: the four UTC readings nearest the range ends x boundary offsets x every operation with its
+/// boundary arguments (wall clocks in the headroom day, results leaving MIN_UTC..=MAX_UTC, a leap-second
+/// reading of the very last second)
+fn zoned_edges(c: &mut Ctx) {
+    let (lo, hi) = (DateTime::<Utc>::MIN_UTC.naive_utc(), DateTime::<Utc>::MAX_UTC.naive_utc());
+    let day = TimeDelta::seconds(86400);
+    let us = [lo, lo.checked_add_signed(day).unwrap(), lo.checked_add_signed(TimeDelta::seconds(3599)).unwrap(),
+        hi.checked_sub_signed(day).unwrap(), hi.checked_sub_signed(TimeDelta::seconds(3599)).unwrap(), hi];
+    let mut vals: Vec<DateTime<FixedOffset>> = vec![];
+    for u in us.iter() {
+        for off in [0i32, 1, -1, 17, -17, 3600, -3600, 86399, -86399] {
+            vals.push(FixedOffset::east_opt(off).unwrap().from_utc_datetime(u));
+        }
+    }
+    for z in vals.iter() {
+        for n in [0i64, 1, 12, 13, u32::MAX as i64] {
+            zoned_case(c, z, 0, n);
+            zoned_case(c, z, 1, n);
+        }
+        for y in [z.year() as i64, MIN_YEAR as i64 - 1, MIN_YEAR as i64, MIN_YEAR as i64 + 1, MAX_YEAR as i64 - 1, MAX_YEAR as i64, MAX_YEAR as i64 + 1, 2024] {
+            zoned_case(c, z, 2, y);
+        }
+        for (k, vs) in [(3usize, vec![0i64, 1, 2, 11, 12, 13]), (4, vec![0, 1, 10, 11, 12]), (5, vec![0, 1, 2, 30, 31, 32]), (6, vec![0, 1, 29, 30, 31]),
+            (7, vec![0, 1, 2, 364, 365, 366, 367]), (8, vec![0, 1, 363, 364, 365, 366]),
+            (9, vec![0, 1, 22, 23, 24]), (10, vec![0, 59, 60]), (11, vec![0, 58, 59, 60]),
+            (12, vec![0, 999_999_999, 1_000_000_000, 1_999_999_999, 2_000_000_000])] {
+            for v in vs {
+                zoned_case(c, z, k, v);
+            }
+            zoned_case(c, z, k, u32::MAX as i64);
+        }
+        for b in vals.iter().step_by(7) {
+            years_zoned(c, z, b);
+            years_zoned(c, b, z);
+        }
+    }
+    // the last month steps into a leap-second reading of the very last second (no MIN_UTC..=MAX_UTC filter
+    // in month stepping) and the replacements that refuse it
+    let leap = NaiveTime::from_hms_nano_opt(23, 59, 59, 1_500_000_000).unwrap();
+    for (m, d) in [(10u32, 31u32), (11, 30), (12, 30)] {
+        let u = NaiveDate::from_ymd_opt(MAX_YEAR, m, d).unwrap().and_time(leap);
+        for off in [0i32, -1, 1] {
+            let z = FixedOffset::east_opt(off).unwrap().from_utc_datetime(&u);
+            for n in [0i64, 1, 2] {
+                zoned_case(c, &z, 0, n);
+            }
+            zoned_case(c, &z, 5, 31);
+            zoned_case(c, &z, 7, 365);
+            zoned_case(c, &z, 12, 999_999_999);
+        }
     }
 }
 
@@ -763,6 +1058,8 @@ pub fn run(c: &mut Ctx) {
         blocks.push(B::M(*a, *b));
         blocks.push(B::K(*a, *b));
     }
+    // ---- exhaustive: zone-aware values at the range ends x boundary offsets x every operation ----------
+    zoned_edges(c);
     // ---- exhaustive: all 7 first weekdays x the 14 days nearest each range end -------------------------
     for i in 0..14 {
         let lo = NaiveDate::MIN.checked_add_days(chrono::Days::new(i)).unwrap();
@@ -832,12 +1129,15 @@ pub fn run(c: &mut Ctx) {
             let t = gen_time(c);
             let ndt = d.and_time(t);
             let want = r.clone().map(|o| o.map(|x| x.and_time(t)));
-            if guard(|| ndt.with_year(y2)) != want {
+            let gotn = guard(|| ndt.with_year(y2));
+            c.op(&format!("dto.nw year {} {y2}", enc_n(&ndt)), &show_on(&gotn));
+            if gotn != want {
                 c.fail("NaiveDateTime::with_year differs from replacing the year of the date and keeping the time", &format!("{ndt:?} y={y2}"));
             }
             let off = gen_offset(c);
             if let Some(dt) = off.from_local_datetime(&ndt).single() {
                 let got = guard(|| dt.with_year(y2));
+                c.op(&format!("dto.zw year {} {y2}", enc_z(&dt)), &show_oz(&got));
                 zoned_oracle(c, "with_year", &format!("{dt:?} y={y2}"), &dt, got, want);
             }
         }
@@ -874,6 +1174,7 @@ pub fn run(c: &mut Ctx) {
             month_num_days(c, m0, y);
         }
         time_fields(c);
+        zoned_ops(c);
         if i < 3 {
             c.sample(&format!("do.addm {} {n} = {}", yof(&d), show_r(&guard(|| d.checked_add_months(Months::new(n))))));
         }
